@@ -36,16 +36,48 @@ def tmpl_text(st):
     if f == "range" and st.get("boom"):
         # execution fails in the middle of the rendering, at the first message whose role is "boom"
         return "{{range .Messages}}%s{{.Role}}%s{{.Content}}{{if eq .Role \"boom\"}}{{index \"\" 1}}{{end}}%s{{end}}%s" % tuple(L)
+    lay = st.get("layout")
     if f == "range":
-        return "{{range .Messages}}%s{{.Role}}%s{{.Content}}%s{{end}}%s" % tuple(L)
-    if f == "legacy":
-        resp = "" if st.get("noresp") else "{{.Response}}"
-        return "{{if .System}}%s{{.System}}%s{{end}}{{if .Prompt}}%s{{.Prompt}}%s{{end}}%s%s%s" % (L[0], L[1], L[2], L[3], L[4], resp, L[5])
-    if f == "legacyif":
-        return "{{if .System}}%s{{.System}}%s{{end}}{{if .Prompt}}%s{{.Prompt}}%s{{end}}{{if .Response}}%s{{.Response}}%s{{end}}" % tuple(L)
+        one = "%s{{.Role}}%s{{.Content}}%s" % (L[0], L[1], L[2])
+        loop = "{{range .Messages}}" + one + "{{end}}"
+        tools = "{{define \"tools\"}}{{if .Tools}}TOOLS{{end}}{{end}}{{template \"tools\" .}}" if st.get("tools_sub") else ""
+        # named sub-templates: .Messages occurs only inside a {{define}} / {{block}} body that the root invokes
+        if lay == "define":
+            return tools + "{{define \"msgs\"}}" + loop + "{{end}}{{template \"msgs\" .}}" + L[3]
+        if lay == "define-after":
+            return tools + "{{template \"msgs\" .}}" + L[3] + "{{define \"msgs\"}}" + loop + "{{end}}"
+        if lay == "block":
+            return tools + "{{block \"msgs\" .}}" + loop + "{{end}}" + L[3]
+        if lay == "nested":
+            return (tools + "{{define \"one\"}}" + one + "{{end}}{{define \"all\"}}{{range .Messages}}{{template \"one\" .}}{{end}}{{end}}"
+                    "{{template \"all\" .}}" + L[3])
+        return tools + loop + L[3]
+    if f in ("legacy", "legacyif"):
+        sysp = "{{if .System}}%s{{.System}}%s{{end}}" % (L[0], L[1])
+        usr = "{{if .Prompt}}%s{{.Prompt}}%s{{end}}" % (L[2], L[3])
+        if f == "legacy":
+            tail = L[4] + ("" if st.get("noresp") else "{{.Response}}") + L[5]
+        else:
+            tail = "{{if .Response}}%s{{.Response}}%s{{end}}" % (L[4], L[5])
+        if lay == "sys-define":      # .System only in a sub-template
+            return "{{define \"sys\"}}" + sysp + "{{end}}{{template \"sys\" .}}" + usr + tail
+        if lay == "turn-define":     # .System and .Prompt in nested sub-templates, the response in the root
+            return "{{define \"sys\"}}" + sysp + "{{end}}{{define \"turn\"}}{{template \"sys\" .}}" + usr + "{{end}}{{template \"turn\" .}}" + tail
+        return sysp + usr + tail
     if f == "sysrange":
-        return ("{{if .System}}%s{{.System}}%s{{end}}{{range .Messages}}{{if eq .Role \"user\"}}%s{{.Content}}%s"
-                "{{else if eq .Role \"assistant\"}}%s{{.Content}}%s{{end}}{{end}}%s") % tuple(L)
+        sysp = "{{if .System}}%s{{.System}}%s{{end}}" % (L[0], L[1])
+        conv = ("{{range .Messages}}{{if eq .Role \"user\"}}%s{{.Content}}%s{{else if eq .Role \"assistant\"}}%s{{.Content}}%s{{end}}{{end}}"
+                % (L[2], L[3], L[4], L[5]))
+        if lay == "sys-define":      # .System only in a sub-template
+            return "{{define \"sys\"}}" + sysp + "{{end}}{{template \"sys\" .}}" + conv + L[6]
+        if lay == "all-define":      # .System and .Messages only in sub-templates
+            return "{{define \"sys\"}}" + sysp + "{{end}}{{define \"conv\"}}" + conv + "{{end}}{{template \"sys\" .}}{{template \"conv\" .}}" + L[6]
+        if lay == "block":
+            return "{{block \"sys\" .}}" + sysp + "{{end}}{{block \"conv\" .}}" + conv + "{{end}}" + L[6]
+        if lay == "nested":          # a sub-template that invokes the others
+            return ("{{define \"sys\"}}" + sysp + "{{end}}{{define \"conv\"}}" + conv + "{{end}}{{define \"all\"}}{{template \"sys\" .}}{{template \"conv\" .}}{{end}}"
+                    "{{template \"all\" .}}" + L[6])
+        return sysp + conv + L[6]
     raise ValueError(f)
 
 
@@ -75,6 +107,14 @@ def rnd_style(rng):
     if f == "legacy" and rng.random() < 0.3:
         st["lits"][4] = st["lits"][5] = ""
         st["noresp"] = True
+    # the same templates organised with {{define}} / {{block}} / {{template}} (same rendering, same model)
+    if f == "range" and rng.random() < 0.4:
+        st["layout"] = rng.choice(["define", "define-after", "block", "nested"])
+        st["tools_sub"] = rng.random() < 0.3
+    if f == "sysrange" and rng.random() < 0.4:
+        st["layout"] = rng.choice(["sys-define", "all-define", "block", "nested"])
+    if f in ("legacy", "legacyif") and rng.random() < 0.15:
+        st["layout"] = rng.choice(["sys-define", "turn-define"])
     return st
 
 
@@ -88,6 +128,13 @@ def fixed_styles():
         pass
     out.append({"fam": "legacyif", "lits": ["", " ", "", " ", "", " "], "name": "TestChatPrompt",
                 "text": "\n{{- if .System }}{{ .System }} {{ end }}\n{{- if .Prompt }}{{ .Prompt }} {{ end }}\n{{- if .Response }}{{ .Response }} {{ end }}"})
+    # chatml organised with named sub-templates (.Messages only inside a define / block body), and a system-first
+    # template whose .System and .Messages live in sub-templates
+    cl = ["<|im_start|>", "\n", "<|im_end|>\n", "<|im_start|>assistant\n"]
+    out.append({"fam": "range", "lits": cl, "layout": "define", "name": "chatml-define"})
+    out.append({"fam": "range", "lits": cl, "layout": "nested", "tools_sub": True, "name": "chatml-nested"})
+    out.append({"fam": "range", "lits": cl, "layout": "block", "name": "chatml-block"})
+    out.append({"fam": "sysrange", "lits": ["<<SYS>>", "<</SYS>>\n", "<INST> ", " </INST>", " ", "</s>", ""], "layout": "all-define", "name": "sysrange-define"})
     return out
 
 
@@ -404,6 +451,9 @@ def judge(c, o):
         if c["mllama"] and any(len(m["images"]) > 1 for m in msgs):
             return None      # request rejected (more than one image in a message for this model family): no prompt is built
         return ({"class": "spurious-error"}, "chatPrompt failed with errTooManyImages without cause")
+    if "cand" in o and any(x < 0 for x in o["cand"]) and not c["style"].get("boom"):
+        return ({"class": "no-prompt", "why": "template-not-executable", "template": "legacy-with-subtemplates" if c["style"]["fam"].startswith("legacy") and c["style"].get("layout") else c["style"]["fam"] + "/" + str(c["style"].get("layout"))},
+                "a legal template cannot be executed on this conversation (Template.Execute fails: %s): no prompt is built" % (o.get("err") or "candidate rendering failed"))
     if "cand" in o and template_error_expected(c, o):
         if oc == 3:
             return None      # the template cannot render this conversation: the error is returned, no prompt is built
@@ -460,7 +510,7 @@ def msgs_term(c):
 
 def render_chat(c, o):
     oc = o.get("outcome")
-    if "cand" in o and c["msgs"] and template_error_expected(c, o):
+    if "cand" in o and c["msgs"] and template_error_expected(c, o) and oc != 1:
         return "true" if oc == 3 else "false"      # template failures are not modelled; the monitor judged the outcome
     if oc not in (0, 1, 2) and not (oc == 3 and c.get("tok_fail")):
         return "false"
@@ -527,7 +577,7 @@ def thresholds(rng, c0, o0, how_many):
         if v is not None:
             cands.update([v - 1, v, v + 1])
     cands = sorted(x for x in cands)
-    picks = set(rng.sample(cands, min(how_many, len(cands))))
+    picks = set(rng.sample(cands, min(how_many, len(cands)))) or {0}
     if rng.random() < 0.2:
         picks.add(rng.choice([0, -1, 1, 2048, 1 << 31]))
     return sorted(picks)
@@ -576,7 +626,7 @@ def gen_convs(ctx):
     # tool-call dialogues (assistant messages with tool calls and empty or non-empty content, tool results) for every family
     fams = ["range", "legacy", "legacyif", "sysrange"]
     for i in range(40 if ctx.quick() else 400):
-        st = fixed[i % 2] if i % 5 == 4 else rnd_style(rng)
+        st = fixed[i % len(fixed)] if i % 5 == 4 else rnd_style(rng)
         while i % 5 != 4 and st["fam"] != fams[i % 4]:
             st = rnd_style(rng)
         convs.append((st, tool_dialogue(rng), rng.choice([0, 0, 4]), False, 0, "tool-dialogue"))
@@ -669,6 +719,8 @@ def check_cases(ctx, binp, cases, obs, cand_done):
         ctx.note_case(canon, klass not in ("single-message", "empty"), klass, sample=describe(c, o))
         ctx.count("gen:" + c["klass"])
         ctx.count("family:" + c["style"]["fam"])
+        if c["style"].get("layout"):
+            ctx.count("layout:" + c["style"]["fam"] + "/" + c["style"]["layout"] + ("+tools" if c["style"].get("tools_sub") else ""))
         j = judge(c, o)
         if j is not None:
             sig, text = j
@@ -784,13 +836,13 @@ def run(ctx):
             L = [v for v in ctxlens(c0, o0) if v is not None]
             if c0["pos"] == 0:
                 # everything measured (all candidates rendered); the failure comes at one of the calls / at the boom message
-                c1 = dict(c0, num_ctx=max(L) + ctx.rng.choice([0, 0, 5]))
+                c1 = dict(c0, num_ctx=max(L + [0]) + ctx.rng.choice([0, 0, 5]))
                 if c0["kind"] == "tok-fail":
                     c1["tok_fail"] = ctx.rng.randint(1, len(c0["msgs"]) - 1)
                 seqs.append(c1)
             else:
                 # the follower fits exactly: any over-count of its first candidate drops a message
-                seqs.append(dict(c0, num_ctx=L[0] if ctx.rng.random() < 0.7 else ctx.rng.choice(L)))
+                seqs.append(dict(c0, num_ctx=(L[0] if ctx.rng.random() < 0.7 else ctx.rng.choice(L)) if L else 0))
             continue
         per = 3 if c0["klass"] in ("random", "literal-tag", "mllama-png") else (2 if ctx.quick() else 4)
         if c0["klass"] == "corpus":
@@ -873,6 +925,14 @@ def eval_handler(ctx, c, o, items, owners, tag, extra=None):
     return True
 
 
+def handler_style(rng):
+    """templates of the POST /api/chat stage (legacy templates with sub-templates are left to the direct stage: known finding)"""
+    st = rng.choice(fixed_styles()) if rng.random() < 0.3 else rnd_style(rng)
+    if st["fam"].startswith("legacy") and st.get("layout"):
+        st = {k: v for k, v in st.items() if k != "layout"}
+    return st
+
+
 def handler_check(ctx):
     """POST /api/chat through the real ChatHandler: what reaches the runner is the prompt of the whole conversation"""
     binp = ctx.go_build(**CHAT_BUILD)
@@ -881,7 +941,7 @@ def handler_check(ctx):
     rng = ctx.rng
     base = []
     for i in range(50 if ctx.quick() else 500):
-        st = rng.choice(fixed_styles()) if rng.random() < 0.3 else rnd_style(rng)
+        st = handler_style(rng)
         msgs = tool_dialogue(rng) if i % 4 == 3 else rnd_conv(rng, 6)
         j = rng.randrange(len(msgs))            # msgs[:j] are the model's own messages, msgs[j:] the request
         model_msgs = [dict(m, images=[], body=m["body"].replace("[img]", "")) for m in msgs[:j]]
@@ -906,7 +966,7 @@ def handler_check(ctx):
     # while B is served completely (state shared between overlapping requests)
     multi = []
     for i in range(40 if ctx.quick() else 300):
-        st = rng.choice(fixed_styles()) if rng.random() < 0.3 else rnd_style(rng)
+        st = handler_style(rng)
         k = rng.choice([0, 1, 2, 3, 3, 5, 5, 6, 7])
         model_msgs = [{"id": j, "role": ("user", "assistant")[j % 2], "body": rnd_body(rng), "images": []} for j in range(k)]
         system = None if rng.random() < 0.55 else {"id": 900, "role": "system", "body": rnd_body(rng), "images": []}
